@@ -2,4 +2,4 @@ From Coq Require Import Extraction ExtrOcamlBasic.
 From PV Require Import Lib.ExtBase C38.Model.
 Extraction "model.ml" ext_base_z ext_base_n ext_base_nat ext_base_res ext_base_list
   remove_artifacts detect_artifacts patch_first new_stream wm_content
-  add_page add_seq remove_page detect_page page_bytes clean_page add_doc remove_doc detect_doc.
+  add_page add_seq remove_page detect_page page_bytes clean_page add_doc remove_doc detect_doc detect_tdoc flat_doc.
